@@ -4,7 +4,7 @@ import os
 import time
 
 VERIF = os.path.dirname(os.path.dirname(os.path.abspath(__file__)))
-WORK = os.path.join(VERIF, 'work')
+WORK = os.environ.get('VERIF_WORK') or os.path.join(VERIF, 'work')
 
 
 def make_replay(pid, unit, failure, seed):
